@@ -140,7 +140,7 @@ def run_check(prop, tier, seed):
             # the SMT seed is NOT varied with VERIF_SEED: a proof either exists or not; the seed drives the random search of the
             # second engine only. A resource-limit failure is retried once with a 4x larger limit before it counts as undecided.
             j.result = verus.run_verus(j.path)
-            if any(d.kind == "resource" for d in j.result.diags):
+            if j.mode != "vacuity" and any(d.kind == "resource" for d in j.result.diags):
                 r2 = verus.run_verus(j.path, rlimit=120)
                 r2.retried = True
                 j.result = r2
@@ -281,8 +281,9 @@ def run_check(prop, tier, seed):
                         failed.setdefault(k, v)
                         exe = exe_d if k not in stats else exe
                 knames = [h for h in hnames if kanirun.kani_feasible(h)]
-                if knames and not failed and (tier == "thorough" or viol_rel or undecided):
-                    res, klog, secs = kanirun.run_kani(knames, scratch, timeout=1500)
+                if knames and not failed and (tier == "thorough" or viol_rel or undecided) and not os.environ.get("VERIF_NO_KANI"):
+                    # bounded-exhaustive arbiter / thorough-tier stand-in; budgeted so that a quick check stays quick
+                    res, klog, secs = kanirun.run_kani(knames, scratch, timeout=(3000 if tier == "thorough" else 420))
                     dyn["kani_harnesses"] = knames
                     dyn["kani_seconds"] = round(secs, 1)
                     dyn["kani_ok"] = sum(1 for r in res.values() if r["status"] == "ok")
